@@ -27,13 +27,17 @@ def replace (f : Forest) (replaced replacing : Nat) : Forest × Res :=
     if !f.structureCheck (some parent) replacing then (f, .err .invalidOperation) else
     if (f.ancestors replacing).contains replaced then (f, .err .invalidOperation) else
     let previous := f.prevSibling replaced
-    if previous == some replacing || f.nextSibling replaced == some replacing then f.remove replaced else
+    let next := f.nextSibling replaced
+    if previous == some replacing || next == some replacing then f.remove replaced else
     let f1 := f.dropSubtree replaced
     match previous with
     | some p =>
       let (f2, r) := f1.insertAfter p replacing
       (match r with
-       | .ok => ((f2.removeConsolidate (some p) (f2.nextSibling p)).1, .ok)
+       | .ok =>
+         (match next with
+          | some n => ((f2.removeConsolidate (f2.prevSibling n) (some n)).1, .ok)
+          | none => (f2, .ok))
        | r => (f2, r))
     | none => f1.prepend parent replacing
 
